@@ -56,7 +56,7 @@ static void run(int tier, int prog) {
   }
   MV_CHECK(bar.state == 0, "barrier count is %ld after the last round", (long)bar.state);
   mv_obs("N=%d r=%d ok", cur->N, cur->rounds);
-  myth_barrier_destroy(&bar);
+  h_barrier_epilogue(&bar, prog & 1);
   mv_finish();
 }
 static const char * const cover_names[] = { "raced_ahead_into_next_round", 0 };
